@@ -648,10 +648,13 @@ func (r *Rec) InChild() bool { return r.opt.ChildIn != "" }
 // observed into r (used for properties of a process's first moments, e.g. concurrent first use). A crash of the child is
 // reported as a process-crash violation of the first case.
 func (r *Rec) RunInFreshProcess(cases []any) {
-	dir := filepath.Join(r.opt.VerifDir, ".build", "runs", fmt.Sprintf("%s-fresh-%d", r.spec.ID, os.Getpid()))
+	// one directory per call: cases run on several goroutines, and a directory shared between them could be removed by
+	// one call (when it happened to be empty) just before another wrote its input file into it
+	seq := int(r.childSeq.Add(1))
+	dir := filepath.Join(r.opt.VerifDir, ".build", "runs", fmt.Sprintf("%s-fresh-%d-%d", r.spec.ID, os.Getpid(), seq))
 	os.MkdirAll(dir, 0o755)
-	runBatch(r.spec, r.opt, r, dir, int(r.childSeq.Add(1)), cases)
-	os.Remove(dir) // succeeds once the last batch has cleaned up
+	runBatch(r.spec, r.opt, r, dir, seq, cases)
+	os.RemoveAll(dir)
 }
 
 // ---- isolated (child process) mode ----
